@@ -68,7 +68,7 @@ Section AttemptThm.
   Proof.
     intros r o H. apply attempt_shape in H as [HP HS]. unfold seqs_of.
     constructor; [rewrite HP; apply probe_trace_ok|].
-    destruct HS as [_ Hg Hd _ _ | cl ar ce fr _ Hfr Hd _ (n & Hg & _) | z ar ce r' st _ _ _ HR Hg Hd _ _].
+    destruct HS as [_ Hg Hd _ _ | cl ar ce fr _ _ Hfr Hd _ (n & Hg & _) | z ar ce r' st _ _ _ _ HR Hg Hd _ _].
     - rewrite Hg, Hd. constructor.
     - rewrite Hg, Hd. simpl. constructor; [|constructor]. unfold seq_ok. simpl. subst fr. split.
       + apply follow_contacted_valid.
@@ -92,7 +92,7 @@ Section AttemptThm.
     intros r o Hm Hc H. apply attempt_shape in H as [HP HS].
     pose proof (probe_facts valid c url presigned (s_probe sc) Hm) as (_ & _ & Hp2 & Hp0). simpl in Hp2, Hp0.
     rewrite <- HP in Hp2, Hp0. split; [exact Hp2|]. split; [exact Hp0|].
-    destruct HS as [_ Hg Hd _ _ | cl ar ce fr _ Hfr Hd _ (n & Hg & Hn) | z ar ce r' st _ _ _ HR Hg Hd _ _].
+    destruct HS as [_ Hg Hd _ _ | cl ar ce fr _ _ Hfr Hd _ (n & Hg & Hn) | z ar ce r' st _ _ _ _ HR Hg Hd _ _].
     - rewrite Hg, Hd. split; [discriminate | intros ? ? []].
     - rewrite Hg, Hd. split; [|intros ? ? []]. intros s Hs. inversion Hs; subst s. simpl.
       unfold io_chunk. destruct fr as [rs tr|e tr].
@@ -124,7 +124,7 @@ Section AttemptThm.
                      /\ Forall (fun ck => (ck < n)%nat) hedged /\ NoDup hedged.
   Proof.
     intros r o H. apply attempt_shape in H as [_ HS].
-    destruct HS as [_ _ _ Hk _ | cl ar ce fr _ _ _ Hk _ | z ar ce r' st _ _ _ HR _ _ Hk _].
+    destruct HS as [_ _ _ Hk _ | cl ar ce fr _ _ _ _ Hk _ | z ar ce r' st _ _ _ _ HR _ _ Hk _].
     - exists O, []. rewrite Hk. repeat split; auto; try constructor. intros; rewrite len_nil; lia.
     - exists O, []. rewrite Hk. repeat split; auto; try constructor. intros; rewrite len_nil; lia.
     - pose proof (run_parallel_hedges _ _ _ _ _ _ _ _ HR) as (H1 & H2 & H3).
@@ -138,7 +138,7 @@ Section AttemptThm.
     /\ (forall k data m, o_dec o = Some (k, data, m) -> m = max_dec c).
   Proof.
     intros r o H. apply attempt_shape in H as [_ HS].
-    destruct HS as [(e & He) _ _ _ Hdc | cl ar ce fr _ _ _ _ (n & _ & Hn) | z ar ce r' st _ _ _ _ _ _ _ Hr].
+    destruct HS as [(e & He) _ _ _ Hdc | cl ar ce fr _ _ _ _ _ (n & _ & Hn) | z ar ce r' st _ _ _ _ _ _ _ _ Hr].
     - subst r. rewrite Hdc. split; intros; discriminate.
     - destruct fr as [rs tr|e tr].
       + destruct (negb (is_2xx (r_status rs))).
@@ -169,17 +169,28 @@ Section AttemptThm.
   Definition probed_length_true (obj : list N) : Prop :=
     forall z ar ce, fst (probe valid c url presigned (s_probe sc)) = PInfo (Some z) ar ce -> c_threshold c <= z -> z = len obj.
 
+  (* the Content-Encoding that describes the delivered bytes: on the single-GET path the one named by the response that
+     carried the body, the probe's only when that response names none; on the range path the probe's *)
+  Definition effective_cenc (ce : Z) : Prop :=
+    exists cl ar pce, fst (probe valid c url presigned (s_probe sc)) = PInfo cl ar pce /\
+      match parallel_len c cl ar with
+      | Some _ => ce = pce
+      | None => exists rs tr, follow valid (c_max_redir c) 0%N url (s_get sc) = FOk rs tr
+                              /\ ce = if r_cenc rs =? 0 then pce else r_cenc rs
+      end.
+
   Lemma attempt_exact_partial : forall obj d o,
     0 < c_chunk c ->
     origin_serves obj -> probed_length_true obj ->
     attempt valid c presigned url dec sc = (ROk d, o) ->
-    exists ce, match codec_of ce with
+    exists ce, effective_cenc ce /\
+               match codec_of ce with
                | None => d = obj
                | Some k => dec k obj (max_dec c) = Some d
                end.
   Proof.
     intros obj d o Hc [HG HT] HL H. apply attempt_shape in H as [_ HS].
-    destruct HS as [(e & He) _ _ _ _ | cl ar ce fr _ Hfr _ _ (n & _ & Hn) | z ar ce r' st HP _ Hth HR _ _ _ Hr].
+    destruct HS as [(e & He) _ _ _ _ | cl ar ce fr HP0 HPL Hfr _ _ (n & _ & Hn) | z ar ce r' st HP HPL _ Hth HR _ _ _ Hr].
     - discriminate.
     - destruct fr as [rs tr|e tr]; [|destruct Hn; discriminate].
       destruct (negb (is_2xx (r_status rs))); [destruct Hn; discriminate|].
@@ -188,7 +199,8 @@ Section AttemptThm.
       apply read_single_ok in ERS as (Hb & Hd0 & _ & _). simpl in Hd0.
       rewrite iter_chunked_concat in Hd0 by (unfold io_chunk; lia).
       rewrite (HG rs tr (eq_sym Hfr) Hb) in Hd0. subst d0.
-      exists (if r_cenc rs =? 0 then ce else r_cenc rs).
+      exists (if r_cenc rs =? 0 then ce else r_cenc rs). split.
+      { exists cl, ar, ce. split; [exact HP0|]. rewrite HPL. exists rs, tr. split; [symmetry; exact Hfr | reflexivity]. }
       apply post_decode_ok in Hpd as (_ & Hpd).
       destruct (codec_of _); tauto.
     - destruct r' as [d0|e]; [|destruct Hr; discriminate].
@@ -197,7 +209,9 @@ Section AttemptThm.
       { eapply run_parallel_exact; [| |exact HR].
         - apply compute_ranges_covers; auto. apply len_nonneg.
         - intros tid t0 t1 hops rg x ob Ht Hin Hrun. eapply HT; eauto. }
-      subst d0. exists ce. apply post_decode_ok in Hr as (_ & Hr). destruct (codec_of ce); tauto.
+      subst d0. exists ce. split.
+      { exists (Some (len obj)), ar, ce. split; [exact HP|]. rewrite HPL. reflexivity. }
+      apply post_decode_ok in Hr as (_ & Hr). destruct (codec_of ce); tauto.
   Qed.
 End AttemptThm.
 
